@@ -140,7 +140,7 @@ fn mutate(r: &mut Rng, doc: &mut Document, c: &mut Ctx) {
     for _ in 0..n_mut {
         let target = *r.pick(&ids);
         let other = *r.pick(&ids);
-        let kind = r.below(13);
+        let kind = r.below(14);
         let Some(obj) = doc.objects.get_mut(&target) else { continue };
         match kind {
             0 => { // kid cycle: append a reference to some other node (possibly an ancestor) to Kids
@@ -158,6 +158,8 @@ fn mutate(r: &mut Rng, doc: &mut Document, c: &mut Ctx) {
                    *obj = Object::Reference(other); c.count("mut.ref_chain"); }
             9 => { if let Object::Dictionary(d) = obj { d.set("Type", Object::Integer(1)); d.set("Linearized", Object::Integer(1)); c.count("mut.linearized_fallback"); } }
             10 => { if let Object::Dictionary(d) = obj { d.set("Kids", Object::Reference(other)); c.count("mut.kids_ref_other"); } }
+            12 => { // a kid reference with the NUMBER of an existing node but another generation: dangling, never a page
+                    if let Object::Dictionary(d) = obj { if let Ok(Object::Array(a)) = d.get_mut(b"Kids") { let pos = r.usize(a.len() + 1); a.insert(pos, Object::Reference((other.0, other.1 + 1 + r.below(3) as u16))); c.count("mut.kid_other_generation"); } } }
             11 => { // a STREAM whose dictionary looks like a page-tree node or a page: not a dictionary object, never a page
                     if let Object::Dictionary(d) = obj { let d = d.clone(); *obj = Object::Stream(lopdf::Stream::new(d, b"q Q".to_vec())); c.count("mut.stream_node"); } }
             _ => { if let Object::Dictionary(d) = obj { if d.has(b"Kids") { d.set("Type", Object::Name(b"Page".to_vec())); } else { d.set("Type", Object::Name(b"Pages".to_vec())); } c.count("mut.swap_type"); } }
